@@ -33,6 +33,10 @@ type c05Params struct {
 	// PadBlocks > 0: the sender is the scripted reference endpoint, which pads its CBC records with that many
 	// blocks more than the minimum (legal: the padding length byte allows up to 255); the receiver is the library
 	PadBlocks int `json:"pad_blocks,omitempty"`
+	// Duplex: while the damaged record arrives, another task of the receiving application is inside a Write that is
+	// stuck in a full transport (the attacker holds the other direction back for a second, then lets it flow): the
+	// alert has to wait for that Write, it must not be left out
+	Duplex bool `json:"duplex,omitempty"`
 }
 
 func (c05) ID() string    { return "C05" }
@@ -131,6 +135,15 @@ func c05List(tier string) []c05Params {
 				continue
 			}
 			q.HalfClosed = true
+			out = append(out, q)
+		}
+		// flips (thinned out) against a receiver that is also writing into a stalled transport
+		for _, q := range append([]c05Params(nil), out...) {
+			f := q.Faults[0]
+			if q.Len != 64 || q.HalfClosed || f.Kind != simnet.RFlip || f.Off%5 != 0 || f.Mask != 0x01 {
+				continue
+			}
+			q.Duplex = true
 			out = append(out, q)
 		}
 		// long padding: every position of a record sent by the reference endpoint with extra padding blocks
@@ -287,6 +300,14 @@ func (c05) Run(c *Case, src *vs.Src) *Result {
 		}
 	}
 	var sHS, rHS error
+	rUp := false
+	var rcvEnd *simnet.Conn // the receiving endpoint's end of the transport
+	if pair != nil {
+		rcvEnd = pair.Pipe.S
+		if p.Dir == 1 {
+			rcvEnd = pair.Pipe.C
+		}
+	}
 	var got []byte
 	var firstErr error
 	var later []string
@@ -338,10 +359,35 @@ func (c05) Run(c *Case, src *vs.Src) *Result {
 				break
 			}
 		}
+		if p.Duplex {
+			// the other direction was held back; now it flows: read whatever the receiver wrote until it ends
+			vs.Sleep(time.Second)
+			rcvEnd.SetLimit(0)
+			buf := make([]byte, 4096)
+			for i := 0; i < 100000; i++ {
+				sender.SetReadDeadline(vs.Now().Add(5 * time.Second))
+				if _, err := sender.Read(buf); err != nil {
+					break
+				}
+			}
+		}
 		sender.Close()
 	})
+	if p.Duplex {
+		w.Go("receiver-writer", func() {
+			vs.Block(func() bool { return rUp }, time.Time{})
+			if rHS == nil {
+				receiver.Write(make([]byte, 20000))
+			}
+		})
+	}
 	w.Go("receiver", func() {
-		if rHS = receiver.Handshake(); rHS != nil {
+		rHS = receiver.Handshake()
+		if p.Duplex && rHS == nil {
+			rcvEnd.SetLimit(3000) // the receiver's own writes pile up in the transport
+		}
+		rUp = true
+		if rHS != nil {
 			receiver.Close()
 			return
 		}
@@ -380,6 +426,9 @@ func (c05) Run(c *Case, src *vs.Src) *Result {
 	}
 	if p.PadBlocks > 0 {
 		sigp += " long-padding"
+	}
+	if p.Duplex {
+		sigp += " duplex"
 	}
 	w.Finish(r, sigp)
 	pj, _ := json.Marshal(p)
